@@ -467,6 +467,49 @@ def r_guards(rep, f, include_rk4=False):
 
 
 # ------------------------------------------------------------------------------------------ R-REJECT-SHRINK
+def r_clamp_order(rep, f):
+    """`f64::clamp(lo, hi)` panics when lo > hi. Every clamp evaluated by a solver must have provably ordered bounds:
+    two constants, or hi - lo non-negative on the symbolic values (a positive `max_step` is the property's domain; nothing
+    is assumed about the relation of two independent fields). Bounds taken from two independent configuration fields
+    (min_step, max_step / the span) are NOT ordered for every configuration the builders accept."""
+    import limits
+    n = 0
+    for mod, ty in SOLVERS:
+        fn = solve_fn(mod, ty)
+        body = f.body(fn)
+        sites = tast.find(body["body"], lambda z: z.get("k") == "MethodCall" and z.get("name") == "clamp" and len(z.get("args", [])) == 2 and (z.get("ty") or "") in ("f64", "f32"))
+        if not sites:
+            continue
+        try:
+            variants = rk.analyse_variants(f, fn)
+        except rk.AnalysisError as e:
+            rep.inconc("R-CLAMP-ORDER", "R-CLAMP-ORDER:%s" % fn, str(e))
+            continue
+        positive = lambda at: at == "self.max_step"
+        nn = lambda q: limits.nonneg(q, assume=positive)
+        for j, site in enumerate(sites):
+            n += 1
+            key = "R-CLAMP-ORDER:%s:site%d" % (fn, j + 1)
+            txt = tast.render(site)[:70]
+            evs = [ev for tag, sx, hk in variants for ev in sx.trace if ev.get("kind") == "clamp" and ev.get("node") is site]
+            if not evs:
+                rep.inconc("R-CLAMP-ORDER", key, "`%s` is not reached by the symbolic runs" % txt, site.get("sp"))
+                continue
+            bad = None
+            for ev in evs:
+                d = ev["hi"] - ev["lo"]
+                if not (d.is_zero() or (d.is_const() and d.const_value() >= 0) or nn(d)):
+                    bad = (ev["lo"], ev["hi"])
+                    break
+            if bad:
+                rep.violation("R-CLAMP-ORDER", key, "`%s`: the lower bound %r is not provably <= the upper bound %r; f64::clamp panics when min > max "
+                              "(e.g. min_step larger than max_step or than the interval)" % (txt, bad[0], bad[1]), site.get("sp"))
+            else:
+                rep.ok("R-CLAMP-ORDER", key, "`%s`: hi - lo is non-negative on %d evaluation(s)" % (txt, len(evs)))
+    if n == 0:
+        rep.ok("R-CLAMP-ORDER", "R-CLAMP-ORDER:none", "no f64::clamp call in the solvers", nontrivial=False)
+
+
 def r_reject_shrink(rep, f, only=None, positive=False):
     for mod, ty in CONTROLLED:
         if only is not None and mod not in only:
@@ -504,6 +547,8 @@ def run(rep, tier):
     r_nan_reject(rep, f)
     r_guards(rep, f)
     r_reject_shrink(rep, f)
+    rep.rule("R-CLAMP-ORDER", "every f64::clamp(lo, hi) a solver evaluates has provably ordered bounds (constants, a symmetric pair -m, m, or hi - lo >= 0 symbolically): clamp panics when lo > hi")
+    r_clamp_order(rep, f)
     rep.explanation = ("Structural clauses of termination for the five error-controlled solvers: rejecting cycles strictly shrink the step (also for a NaN norm), every cycle meets an "
                        "underflow exit and consumes the step budget, and a NaN right-hand side cannot be accepted. Together these make the loop well-founded on |h| down to rounding level. "
                        "Not decided: absence of panics from indexing/arithmetic, 'bounded work' as a number, blow-up detection.")
